@@ -65,6 +65,23 @@ def shift(obs, lines):
     return out
 
 
+def prefix_only(bib, d1: str, x: str):
+    """First sentence of the statement on its own: D1 followed by arbitrary text and nothing else (X ending the input with
+    or without a newline)."""
+    r1, a = splitobs.run_split(bib, d1)
+    if r1:
+        return ("raised", r1, None, None)
+    a = strip_dup(a)
+    for tail in (x, x + "\n"):
+        r0, pre = splitobs.run_split(bib, d1 + tail)
+        if r0:
+            return ("raised", r0, None, None)
+        if strip_dup(pre)[:len(a)] != a:
+            return ("prefix_blocks_changed", "blocks of the well-formed prefix differ when text follows (no block after it)",
+                    [[o["cls"], o["raw"], o["line"]] for o in pre[:len(a)]], [[o["cls"], o["raw"], o["line"]] for o in a])
+    return None
+
+
 def neighbours(bib, d1: str, x: str, d2: str):
     """Returns None or (clause, detail, observed, expected)."""
     whole = d1 + x + "\n" + d2
@@ -107,7 +124,7 @@ def _chunk(lines):
                     c2 = spans[len(POOL[i]) + len(xn)][1]
                     d1, x, d2 = text[:c1], text[c1:c2 - 1], text[c2:]
                     res["n"] += 1
-                    bad = neighbours(bib, d1, x, d2)
+                    bad = (prefix_only(bib, d1, x) if j == _G["d2"][0] else None) or neighbours(bib, d1, x, d2)
                     if bad:
                         res["mism"].append({"clause": bad[0], "detail": bad[1], "d1": d1, "x": x, "d2": d2, "obs": bad[2], "exp": bad[3]})
                     elif not res["samples"] and x and i == 3:
@@ -201,7 +218,7 @@ def run(chk: core.Check):
             x = corrupt(rnd, block_doc(rnd, rnd.randint(1, 2)))
         else:
             x = rnd.choice(splitpipe.garbage(rnd, 1, 30))
-        bad = neighbours(bib, d1, x, d2)
+        bad = prefix_only(bib, d1, x) or neighbours(bib, d1, x, d2)
         t3 += 1
         if bad:
             report(chk, {"clause": bad[0], "detail": bad[1], "d1": d1, "x": x, "d2": d2, "obs": bad[2], "exp": bad[3]})
